@@ -98,9 +98,49 @@ def check_stable(ctx, data, label):
                 ctx.violation('reparse-differs', {'data': data.decode('utf-8', 'replace')},
                               'tree after serialise+parse differs from the first parse', cls)
                 continue
+            pv1, pv2 = python_values(c), python_values(c2)
+            if pv1 != pv2:
+                diff = next((f'{a!r} vs {b!r}' for a, b in zip(pv1, pv2) if a != b), f'{len(pv1)} vs {len(pv2)} values')
+                ctx.violation('reparse-values-differ', {'data': data.decode('utf-8', 'replace')},
+                              'the typed values after serialise+parse are not the ones of the first parse: ' + diff[:300], cls)
+                continue
             if c2.to_ical() != b1:
                 ctx.violation('second-bytes-differ', {'data': data.decode('utf-8', 'replace')},
                               'second serialisation is not byte-identical', cls)
+
+
+def python_values(comp):
+    """the Python values a tree stands for (not their text): per component the sorted (name, index, value) list,
+    subcomponents in order.  Floats are compared by repr (nan), time zones by name and offset."""
+    from harness.props.C02 import typed_python_value
+
+    def norm(x):
+        if isinstance(x, float):
+            return ('float', repr(x))
+        if isinstance(x, datetime):
+            return ('dt', x.replace(tzinfo=None), None if x.tzinfo is None else (str(x.utcoffset()), x.tzname()))
+        if isinstance(x, (list, tuple)):
+            return tuple(norm(y) for y in x)
+        if isinstance(x, dict):
+            return tuple(sorted((str(k), norm(v)) for k, v in x.items()))
+        if isinstance(x, (str, int, bytes, date, timedelta, type(None))):
+            return (type(x).__name__ if not isinstance(x, str) else 'str', x)
+        return ('obj', type(x).__name__, repr(x))
+    out = []
+
+    def visit(c, path):
+        rows = []
+        for k, v in c.items():
+            for i, one in enumerate(v if isinstance(v, list) else [v]):
+                try:
+                    rows.append((str(k), i, norm(typed_python_value(one))))
+                except Exception as e:  # noqa: BLE001
+                    rows.append((str(k), i, ('unreadable', type(e).__name__)))
+        out.append((path, c.name, sorted(rows, key=repr)))
+        for j, sub in enumerate(c.subcomponents):
+            visit(sub, path + (j,))
+    visit(comp, ())
+    return out
 
 
 # ---- an independent RFC 5545 writer (does not use the library) --------------------------------------
@@ -151,7 +191,7 @@ def rand_denotation(rng):
         return d
     for _ in range(rng.randint(1, 7)):
         r = rng.choice(['SUMMARY', 'DESCRIPTION', 'LOCATION', 'COMMENT', 'X-NOTE', 'PRIORITY', 'SEQUENCE', 'DTSTART',
-                        'DTEND', 'DURATION', 'URL', 'CATEGORIES', 'DTSTAMP', 'RDATE', 'UID'])
+                        'DTEND', 'DURATION', 'URL', 'CATEGORIES', 'DTSTAMP', 'RDATE', 'UID', 'GEO'])
         if r in used and r not in ('COMMENT', 'X-NOTE'):
             continue
         used.add(r)
@@ -183,6 +223,14 @@ def rand_denotation(rng):
                 s = gen.rand_text(rng, 10, wide=0.1).replace('\r', '').replace('\\N', 'N')
                 items.append(''.join(c for c in s if (ord(c) >= 32 or c == '\n') and ord(c) != 127 and not (0xD800 <= ord(c) <= 0xDFFF)))
             props.append((r, {}, 'categories', items))
+        elif r == 'GEO':
+            # RFC 5545 3.8.1.6: two FLOATs; any number of decimals may be given (receivers MAY truncate, the parse
+            # result still is the number the text denotes)
+            def fl(lim):
+                txt = '%s%d.%s' % (rng.choice(['', '-', '+']), rng.randint(0, lim), ''.join(rng.choice('0123456789') for _ in range(rng.randint(1, 12))))
+                return txt
+            a, b = fl(89), fl(179)
+            props.append((r, {}, 'geo', (a, b)))
         elif r == 'RDATE':
             ds = [date(2020, rng.randint(1, 12), rng.randint(1, 28)) for _ in range(rng.randint(1, 3))]
             props.append((r, {'VALUE': 'DATE'}, 'datelist', ds))
@@ -205,6 +253,8 @@ def write_rfc(rng, props):
             return ','.join(rfc_text(x) for x in v)
         if kind == 'datelist':
             return ','.join(rfc_dt(x) for x in v)
+        if kind == 'geo':
+            return v[0] + ';' + v[1]
     lines = ['BEGIN:VCALENDAR', 'VERSION:2.0', 'PRODID:-//writer//EN', 'BEGIN:VEVENT']
     for name, params, kind, v in props:
         ptxt = ''.join(';' + k + '=' + (','.join(rfc_param(x) for x in pv) if isinstance(pv, list) else rfc_param(pv))
@@ -275,12 +325,16 @@ def check_first_parse(ctx, rng):
             got = [str(c) for c in val.cats]
         elif kind == 'datelist':
             got = [d.dt for d in val.dts]
+        elif kind == 'geo':
+            got = (val.latitude, val.longitude)
+            v = (float(v[0]), float(v[1]))
         if got != v:
             cls = 'value-unescape-nontext' if kind == 'uri' and VALUE_HAZARD.search(v) else None
             ctx.violation('wellformed-value', {'data': data.decode('utf-8')}, f'{name}: {got!r} vs {v!r}', cls)
 
 
-HOSTILE = [b'BEGIN:VCALENDAR\r\nBEGIN:VEVENT\r\nDTSTART:08000102T030405Z\r\nDTEND:00010101T000000\r\nRDATE;VALUE=DATE:09991231,00010101\r\nDUE;VALUE=DATE:00990101\r\nEND:VEVENT\r\nBEGIN:X-OLD\r\nDTSTART:00010101T000000\r\nEND:X-OLD\r\nEND:VCALENDAR\r\n',
+HOSTILE = [b'BEGIN:VCALENDAR\r\nBEGIN:VEVENT\r\nGEO:48.85837009999;-122.08293249\r\nEND:VEVENT\r\nBEGIN:VTODO\r\nGEO:-0.00000049;179.9999996\r\nEND:VTODO\r\nEND:VCALENDAR\r\n',
+           b'BEGIN:VCALENDAR\r\nBEGIN:VEVENT\r\nDTSTART:08000102T030405Z\r\nDTEND:00010101T000000\r\nRDATE;VALUE=DATE:09991231,00010101\r\nDUE;VALUE=DATE:00990101\r\nEND:VEVENT\r\nBEGIN:X-OLD\r\nDTSTART:00010101T000000\r\nEND:X-OLD\r\nEND:VCALENDAR\r\n',
            b'BEGIN:VCALENDAR\r\nBEGIN:VEVENT\r\nURL:a\\\\,b\r\nEND:VEVENT\r\nEND:VCALENDAR\r\n',
            b'BEGIN:VCALENDAR\r\nBEGIN:VEVENT\r\nSUMMARY:a\\\\,b\\\\n\\n%2C\r\nCATEGORIES:a\\,b,c\\\\,d\r\nEND:VEVENT\r\nEND:VCALENDAR\r\n',
            b'BEGIN:VCALENDAR\r\nBEGIN:VEVENT\r\nATTENDEE;CN="a\\,b":mailto:x\r\nEND:VEVENT\r\nEND:VCALENDAR\r\n',
